@@ -112,6 +112,10 @@ def _replay(idx, h):
             if kind == "id":
                 skw["sessionCache"] = srv["cache"]
             ckw = dict(settings=settings(**cs), serverName=sni)
+            if kind == "id" and session is not None and not session.resumable:
+                # a client that ignores the invalidation and offers the session ID all the same: what counts for the
+                # server is its own cache entry, which the fatal / abrupt end of the connection has invalidated
+                session.resumable = True
             nconnect += 1
             if auth:
                 # the server always asks; the client has its certificate in the first connection only
